@@ -1,5 +1,5 @@
 """C20 - asset lookup: the named file if it exists, else a pattern match, else None (structural clauses)."""
-from ..rules import dirs
+from ..rules import dirs, baseline
 
 EXPLANATION = (
     "Static rule checking: R-PROV every non-None value that reaches the cache derives from an element of a directory listing "
@@ -25,8 +25,12 @@ def c5(ctx):
     dirs.pack_banner(ctx)
 
 
+def c_api(ctx):
+    baseline.surface(ctx, "C20: documented surface", modules=['simfile.assets', 'simfile._private.extensions', 'simfile.dir', 'simfile._private.path'])
+
 CLAUSES = [
     ("C20.1-3,6", "provenance, cache, case-insensitive comparison, specified path first", c1),
     ("C20.4", "pattern table and matching", c4),
     ("C20.5", "pack banner priority", c5),
+    ("C20.api", "public surface: signatures and defaults, constants, enumerations, blank templates, base classes as confirmed (R-API)", c_api),
 ]
